@@ -41,7 +41,7 @@ RenderAttrs(attrs, q, sp, rev) ==
     R(1)
 \* style: how the same information is spelled
 BaseStyle == [cdata |-> FALSE, refs |-> FALSE, short |-> FALSE, q |-> 34, sp |-> FALSE, rev |-> FALSE,
-              prolog |-> FALSE, trail |-> FALSE, noteAt |-> 0, noteKind |-> 0, splitAt |-> 0, wsAt |-> 0,
+              prolog |-> FALSE, trail |-> FALSE, noteAt |-> 0, noteKind |-> 0, splitAt |-> 0, split3At |-> 0, wsAt |-> 0,
               unkAttr |-> FALSE, unkFirst |-> FALSE, unkLast |-> FALSE]
 Mod(a, b) == a % b
 DecDigits(b) == (IF b >= 100 THEN <<48 + b \div 100>> ELSE <<>>) \o (IF b >= 10 THEN <<48 + Mod(b \div 10, 10)>> ELSE <<>>) \o <<48 + Mod(b, 10)>>
@@ -61,7 +61,11 @@ NOTE2 == <<60,63,110,32,118,63,62>>              \* <?n v?>
 RenderText(s, st, j) ==
     LET body(x) == IF st.cdata /\ ~HasCDEnd(x) /\ x # <<>> THEN <<60,33,91,67,68,65,84,65,91>> \o x \o <<93,93,62>>
                    ELSE IF st.refs THEN CharRefs(x) ELSE EscText(x) IN
-    IF st.splitAt = j /\ Len(s) >= 2       \* a comment / PI inside the text run
+    IF st.split3At = j /\ Len(s) >= 3      \* two insertions: the run is cut into three pieces
+    THEN LET a == Len(s) \div 3
+             b == Len(s) - a IN
+         body(SubSeq(s, 1, a)) \o NOTE1 \o body(SubSeq(s, a + 1, b)) \o (IF st.noteKind = 0 THEN NOTE2 ELSE NOTE1) \o body(SubSeq(s, b + 1, Len(s)))
+    ELSE IF st.splitAt = j /\ Len(s) >= 2       \* a comment / PI inside the text run
     THEN body(SubSeq(s, 1, Len(s) \div 2)) \o (IF st.noteKind = 0 THEN NOTE1 ELSE NOTE2) \o body(SubSeq(s, Len(s) \div 2 + 1, Len(s)))
     ELSE body(s)
 
@@ -105,6 +109,7 @@ Rewrites(L, tyn) ==
      [BaseStyle EXCEPT !.prolog = TRUE], [BaseStyle EXCEPT !.trail = TRUE], [BaseStyle EXCEPT !.unkAttr = TRUE]}
     \cup {[BaseStyle EXCEPT !.noteAt = j, !.noteKind = k] : j \in 1..Len(L), k \in {0, 1}}
     \cup {[BaseStyle EXCEPT !.splitAt = j, !.noteKind = k] : j \in TextSites(L), k \in {0, 1}}
+    \cup {[BaseStyle EXCEPT !.split3At = j, !.noteKind = k] : j \in {x \in TextSites(L) : Len(L[x][2]) >= 3}, k \in {0, 1}}
     \cup {[BaseStyle EXCEPT !.wsAt = j] : j \in WsSites(L)}
     \cup (IF UnkChildOk(tyn) /\ ElementOnly(L) /\ Len(L) > 2 THEN {[BaseStyle EXCEPT !.unkFirst = TRUE], [BaseStyle EXCEPT !.unkLast = TRUE]} ELSE {})
 \* a few compositions
@@ -126,16 +131,22 @@ InvisibleToEvents(st) == ~st.unkAttr /\ ~st.unkFirst /\ ~st.unkLast
 
 \* ---------------------------------------------------------------- interleavings
 \* children of the root element of a logical document, as [name, lo, hi] index ranges into L
-RECURSIVE ChildrenFrom(_, _)
-ChildrenFrom(L, j) ==      \* j = index of a child's Start (depth 1) or of the root's End
-    IF j >= Len(L) THEN <<>>
+\* list fields of the element named nm at nesting depth d (0 = root) of family type tyn
+ListFields(tyn) == IF tyn = "F22" THEN {n_a, n_b} ELSE IF tyn = "F23" THEN {n_a, n_b, n_d} ELSE IF tyn = "F26" THEN {n_a, n_b} ELSE {}
+InnerLists(tyn, nm) == IF tyn = "F26" /\ nm = n_a THEN {n_a, n_b} ELSE IF tyn = "F23" /\ nm = n_b THEN {n_a} ELSE {}
+RECURSIVE ChildrenIn(_, _, _, _)
+ChildrenIn(L, j, stop, tyn) ==      \* children whose Start is at index j.. below index stop (the parent's End)
+    IF j >= stop THEN <<>>
+    ELSE IF L[j][1] = "Text" THEN ChildrenIn(L, j + 1, stop, tyn)
     ELSE LET RECURSIVE EndOf(_, _)
              EndOf(i, d) == IF L[i][1] = "Start" THEN EndOf(i + 1, d + 1)
                             ELSE IF L[i][1] = "End" THEN (IF d = 1 THEN i ELSE EndOf(i + 1, d - 1))
                             ELSE EndOf(i + 1, d)
-             e == EndOf(j, 0) IN
-         <<[name |-> L[j][2], lo |-> j, hi |-> e, size |-> e - j + 1]>> \o ChildrenFrom(L, e + 1)
-Children(L) == ChildrenFrom(L, 2)
+             e == EndOf(j, 0)
+             inl == InnerLists(tyn, L[j][2]) IN
+         <<[name |-> L[j][2], lo |-> j, hi |-> e, size |-> e - j + 1,
+            inner |-> IF inl = {} THEN 0 ELSE Held(ChildrenIn(L, j + 1, e, "-"), inl)]>> \o ChildrenIn(L, e + 1, stop, tyn)
+ChildrenOf(L, tyn) == ChildrenIn(L, 2, Len(L), tyn)
 \* all interleavings that keep the relative order within each name
 RECURSIVE Inter(_)
 Inter(cs) ==
@@ -145,8 +156,6 @@ Inter(cs) ==
              without(i) == SubSeq(cs, 1, i - 1) \o SubSeq(cs, i + 1, Len(cs)) IN
          UNION {{<<cs[firstOf(nm)]>> \o r : r \in Inter(without(firstOf(nm)))} : nm \in names}
 Reassemble(L, order) == <<L[1]>> \o Flatten([i \in 1..Len(order) |-> SubSeq(L, order[i].lo, order[i].hi)]) \o <<L[Len(L)]>>
-ListFields(tyn) == IF tyn = "F22" THEN {n_a, n_b} ELSE IF tyn = "F23" THEN {n_a, n_b, n_d} ELSE {}
-
 ---------------------------------------------------------------------------
 VARIABLES ty, v, doc, toks, phase
 dvars == <<ty, v, doc, toks, phase>>
@@ -184,10 +193,10 @@ Inv_BaseReadsBack == (Mode = "rewrite" /\ phase = 1) => NormEmpty(ReadBack(Base)
 \* C20: interleavings keep the multiset of children and the order within each name
 Inv_Inter ==
     (Mode = "interleave" /\ phase = 1) =>
-        \A o \in Inter(Children(Tree)) :
-            /\ Len(o) = Len(Children(Tree))
-            /\ \A nm \in {c.name : c \in {Children(Tree)[i] : i \in 1..Len(Children(Tree))}} :
-                  SelectSeq(o, LAMBDA c : c.name = nm) = SelectSeq(Children(Tree), LAMBDA c : c.name = nm)
+        \A o \in Inter(ChildrenOf(Tree, ty)) :
+            /\ Len(o) = Len(ChildrenOf(Tree, ty))
+            /\ \A nm \in {c.name : c \in {ChildrenOf(Tree, ty)[i] : i \in 1..Len(ChildrenOf(Tree, ty))}} :
+                  SelectSeq(o, LAMBDA c : c.name = nm) = SelectSeq(ChildrenOf(Tree, ty), LAMBDA c : c.name = nm)
             /\ Held(o, ListFields(ty)) <= SumSizes(o)
 
 Inv_Emit ==
@@ -198,6 +207,6 @@ Inv_Emit ==
                                            docs |-> {RenderDoc(Tree, st) : st \in Rewrites(Tree, ty) \cup Combos(Tree, ty)}])>>)
           [] Mode = "interleave" /\ phase = 1 ->
                 PrintT(<<"REPLAY", ToJson([ty |-> ty, v |-> v,
-                                           cases |-> {<<RenderDoc(Reassemble(Tree, o), BaseStyle), Held(o, ListFields(ty)), SumSizes(o)>> : o \in Inter(Children(Tree))}])>>)
+                                           cases |-> {<<RenderDoc(Reassemble(Tree, o), BaseStyle), Held(o, ListFields(ty)), SumSizes(o)>> : o \in Inter(ChildrenOf(Tree, ty))}])>>)
           [] OTHER -> TRUE
 =============================================================================
